@@ -32,7 +32,7 @@ def classify(snap, comp):
 
 def run(rep, work, rng, tier):
     common.proof_part(rep, 'C05')
-    n = 250 if tier == 'quick' else 5000
+    n = 250 if tier == 'quick' else 20000
     cases = []; kinds = {}
     # the known findings first (corpus)
     for k in rep.kf:
